@@ -259,6 +259,12 @@ func c19Schema() *schema.BodySchema {
 					depKey(nil, []schema.AttributeDependent{attrDep("kind", cty.StringVal("apps.v1"))}): {Attributes: map[string]*schema.AttributeSchema{"replicas": anyOf(cty.Number)}},
 				}},
 			"plain": {Body: &schema.BodySchema{Attributes: map[string]*schema.AttributeSchema{"s": anyOf(cty.String)}}},
+			// dynamic blocks in a block type that has no dependent bodies (static body with the extension), and below a
+			// nested block of it
+			"dhost": {Body: &schema.BodySchema{Extensions: &schema.BodyExtensions{DynamicBlocks: true},
+				Attributes: map[string]*schema.AttributeSchema{"hn": anyOf(cty.String)},
+				Blocks: map[string]*schema.BlockSchema{"rule": {Body: &schema.BodySchema{Attributes: map[string]*schema.AttributeSchema{"name": anyOf(cty.String)},
+					Blocks: map[string]*schema.BlockSchema{"sub": {Body: &schema.BodySchema{Attributes: map[string]*schema.AttributeSchema{"sn": anyOf(cty.String)}}}}}}}}},
 			// a dependent body selected by the *reference* written in a key attribute (Terraform: provider = aws.west)
 			"inst": {Labels: []*schema.LabelSchema{{Name: "name"}},
 				Body: &schema.BodySchema{Attributes: map[string]*schema.AttributeSchema{"prov": {Constraint: schema.Reference{OfScopeId: "sv"}, IsOptional: true, IsDepKey: true}}},
@@ -337,6 +343,9 @@ func c19Configs() [][]citem {
 	out = append(out, []citem{blk("variable", []string{"a"}), blk("svc", []string{"a"}, attr("kind", cStr("web")), attr("port", cRef("var.a")), blk("tls", nil, attr("cert", cStr("c")))), blk("svc", []string{"b"}, attr("kind", cStr("db")), attr("engine", cRef("var.a")))})
 	out = append(out, []citem{blk("variable", []string{"a"}), blk("svc", []string{"b"}, attr("kind", cStr("db")), attr("engine", cRef("var.a"))), blk("svc", []string{"a"}, attr("kind", cStr("web")), attr("port", cRef("var.a")), blk("tls", nil, attr("cert", cStr("c"))))})
 	out = append(out, []citem{blk("variable", []string{"a"}), blk("svc", []string{"c"}, attr("kind", cStr("apps.v1")), attr("replicas", cRef("var.a")))})
+	out = append(out, []citem{blk("variable", []string{"a"}), blk("dhost", nil, attr("hn", cRef("var.a")),
+		blk("dynamic", []string{"rule"}, attr("for_each", cRef("var.a")), blk("content", nil, attr("name", cRef("var.a")),
+			blk("dynamic", []string{"sub"}, attr("for_each", cList()), blk("content", nil, attr("sn", cStr("s s")))))))})
 	out = append(out, []citem{blk("variable", []string{"a"}), blk("inst", []string{"i"}, attr("prov", cRef("var.a")), attr("extra", cRef("var.a")), attr("decl", cStr("d")))})
 	out = append(out, []citem{blk("variable", []string{"a"}), blk("variable", []string{"b"}), blk("inst", []string{"i"}, attr("prov", cRef("var.b"))), blk("inst", []string{"j"}, attr("extra", cRef("var.a")), attr("prov", cRef("var.a")))})
 	// several resources
